@@ -29,7 +29,8 @@ def items_hex(ty, vals):
     return "".join("%016x" % struct.unpack("<Q", struct.pack("<d", v / 32768.0))[0] for v in vals)
 
 
-def run(ctx):
+def run(ctx, only=None):
+    """only = one case name `file|side|type|unit`: judge that case alone (used by `bin/check C15|C05 --replay`)"""
     jobs = []
     meta = {}
     for (fname, word, ch, nb) in FILES:
@@ -59,8 +60,9 @@ def run(ctx):
                 sc = ("store s0 %s\niolog on\nopen h0 s0 r %s\nfault at=1 kind=7 single=1\niolog on\n%s\nseek h0 0 17\n%s\nseek h0 0 17\nclose h0\niolog dump\ndump s0\n"
                       % (filehex[fname], opn, rd(c1), rd(c2)))
                 nm = "%s|r|%s|%s" % (fname, ty, unit)
-                jobs += [(nm + "|ref", ref), (nm, sc)]
-                meta[nm] = ("r", fname, ch, nb, ty, unit, c1, c2, sc)
+                if only is None or only == nm:
+                    jobs += [(nm + "|ref", ref), (nm, sc)]
+                    meta[nm] = ("r", fname, ch, nb, ty, unit, c1, c2, sc)
                 # ---- write side
                 if ty == "raw":
                     d1 = filehex[fname][:2 * c1]
@@ -77,8 +79,9 @@ def run(ctx):
                 sc = ("iolog on\nopen h0 s0 w %s\nfault at=1 kind=7 single=1\niolog on\n%s\nseek h0 0 33\n%s\nseek h0 0 33\nclose h0\niolog dump\ndump s0\n"
                       % (opn, wr(c1, d1), wr(c2, d2)))
                 nm = "%s|w|%s|%s" % (fname, ty, unit)
-                jobs.append((nm, sc))
-                meta[nm] = ("w", fname, ch, nb, ty, unit, c1, c2, sc, d1, d2, opn)
+                if only is None or only == nm:
+                    jobs.append((nm, sc))
+                    meta[nm] = ("w", fname, ch, nb, ty, unit, c1, c2, sc, d1, d2, opn)
     impl = ctx.batch(jobs, clean=True, op_timeout=5, retry_timeouts=False)
 
     probs = []          # (name, text, script)
@@ -178,3 +181,17 @@ def run(ctx):
     ctx.notes["wrapper_matrix"] = dict(stats, files=[f[0] for f in FILES], wrappers="4 caller types x {items, frames} x {read, write} + sf_read_raw / sf_write_raw",
                                        model_scripts=len(mjobs), model_disagreements=len(corr), problems=len(probs))
     return probs, corr
+
+
+def replay(ctx, path, text):
+    """re-judge the case named in a `c15-wrapper-case <name>` line"""
+    nm = next((l.split(None, 1)[1].strip() for l in text.split("\n") if l.startswith("c15-wrapper-case ")), None)
+    probs, corr = run(ctx, only=nm)
+    for (n, t, sc) in probs:
+        print("wrapper matrix: %s: %s" % (n, t))
+    for c in corr:
+        print("wrapper matrix, model differs: %s line %d: implementation %s / model %s" % (c[0], c[1], c[2][:120], c[3][:120]))
+    if probs or corr:
+        ctx.report(path, no_input=not probs)
+    else:
+        print("replay: the property holds on this case now")
